@@ -11,7 +11,15 @@ from mc.props import loopcommon as lc
 
 LEVEL = "model_checking"
 LD = np.longdouble
-BASES = ["RK4Solver", "RK45CKSolver", "DOPRI45", "ABAs5o6HSolver", "BackwardEuler", "RadauIIA5", "RK1412Solver"]
+BASES = ["RK4Solver", "RK45CKSolver", "DOPRI45", "ABAs5o6HSolver", "BackwardEuler", "RadauIIA5", "RK1412Solver", "RICH:RK4Solver:3"]
+
+
+def method_of(name):
+    de, I = lc._imports()
+    if name.startswith("RICH:"):
+        _, base, k = name.split(":")
+        return I.generate_richardson_integrator(lc.by_name(base), int(k))
+    return lc.by_name(name)
 T0, TF, DT0 = 0.0, 2.0, 0.25
 
 
@@ -30,7 +38,7 @@ def ev_term(t, y, **kw):
 ev_term.is_terminal = True
 
 OPS = [("int",), ("intT", 1.0), ("intT", 0.5), ("dt", 0.125), ("rtol", 1e-4), ("atol", 1e-4), ("method", "RK4Solver"), ("method", "ABAs5o6HSolver"),
-       ("tf", 3.0), ("kick", (True, False)), ("ev",), ("fault",), ("reset",)]
+       ("tf", 3.0), ("kick", (True, False)), ("ev",), ("fault",), ("reset",), ("observe",)]
 
 
 def coeff_hash():
@@ -54,7 +62,7 @@ def fresh(cfg, settings=None):
     consts = dict(k=1.0)
     a = de.OdeSystem(f_osc, y0=y0, t=(dtype(T0), dtype(st["tf"])), dt=dtype(DT0), rtol=dtype(st["rtol"]), atol=dtype(st["atol"]),
                      dense_output=bool(cfg["dense"]), constants=consts)
-    a.method = lc.by_name(st["method"])
+    a.method = method_of(st["method"])
     if st["kick"] is not None:
         a.set_kick_vars(np.array(st["kick"]))
     return a, y0, consts, dtype
@@ -77,7 +85,7 @@ def apply_op(a, op, dtype, settings):
         elif k == "atol":
             a.atol = dtype(op[1]); settings["atol"] = op[1]
         elif k == "method":
-            a.method = lc.by_name(op[1]); settings["method"] = op[1]
+            a.method = method_of(op[1]); settings["method"] = op[1]
         elif k == "tf":
             a.tf = dtype(op[1]); settings["tf"] = op[1]
         elif k == "kick":
@@ -94,6 +102,16 @@ def apply_op(a, op, dtype, settings):
             a.integrate(callback=[cb, b])
         elif k == "reset":
             a.reset()
+        elif k == "observe":
+            # a reader looks at everything the API exposes; looking must not change anything
+            before = driver.canon(a)
+            _ = (len(a), a[0], a[-1], [st.t for st in a], repr(a), str(a), a.events, a.nfev, a.integration_status, a.success)
+            if not (a.sol is not None and len(a) == 1):
+                _ = a[dtype(0.3)]
+            if a.sol is not None and len(a) > 1:
+                a.sol(np.asarray(a.t)); a.sol(a.t[-1]); a.sol.grad(a.t[0])
+            if driver.canon(a) != before:
+                raise AssertionError("observing the system changed its state")
     except de.exception_types.FailedIntegration as e:
         raised = "budget" if driver.budget_hit(e) else ("boom" if isinstance(e.__cause__, Boom) else repr(e.__cause__)[:160])
     return raised
@@ -119,6 +137,8 @@ def ops_fn(cfg, hist):
         ops = [o for o in ops if o[0] != "method"]
     if hist and hist[-1][0] == "reset":
         ops = [o for o in ops if o[0] != "reset"]
+    if (hist and hist[-1][0] == "observe") or used.count("observe") >= 1:
+        ops = [o for o in ops if o[0] != "observe"]
     return ops
 
 
@@ -234,7 +254,7 @@ def interleave_case(case):
     # a second system of the same method with another state, tolerance and direction runs to completion in between
     other = de.OdeSystem(f_osc, y0=np.array([2.0, -3.0], dtype=dtype), t=(dtype(5.0), dtype(3.0)), dt=dtype(0.125), rtol=dtype(1e-4), atol=dtype(1e-4),
                          dense_output=True, constants=dict(k=2.5))
-    other.method = lc.by_name(case["other"])
+    other.method = method_of(case["other"])
     other.integrate()
     x.integrate()
     r.n = 1
@@ -251,12 +271,13 @@ def interleave_case(case):
 def run(ctx):
     depth = 3 if ctx.quick else 4
     ctx.rule = ("E1 breadth-first search to depth %d over {integrate(), integrate(1.0), integrate(0.5), dt=, rtol=, atol=, method= (2 choices), tf=, set_kick_vars, "
-                "integrate(terminal event), faulting integrate, reset} from 7 base methods x dense on/off; in EVERY reached state: rebuild twice (bit-identical), caller data untouched, "
+                "integrate(terminal event), faulting integrate, reset} from 8 base methods (incl. a Richardson wrapper) x dense on/off; in EVERY reached state: rebuild twice (bit-identical), caller data untouched, "
                 "no-op call at the target, reset -> pristine -> integrate bit-identical to a fresh system with the current settings; plus split-invariance cells; "
                 "distinct = distinct (method, op-name history) classes" % depth)
     ctx.assumptions += ["'same settings' of the fresh system = current method, rtol, atol, tf, kick mask, the constructor's dt and dense flag",
                         "setters are used at most once per history; histories are bounded by the depth"]
-    cfgs = [dict(method=m, dtype="float64", dense=d) for m in BASES for d in (False, True)]
+    cfgs = [dict(method=m, dtype="float64", dense=d) for m in BASES for d in (False, True)
+            if not (ctx.quick and d and m in ("DOPRI45", "BackwardEuler", "RK1412Solver"))]
     if not ctx.quick:
         cfgs += [dict(method=m, dtype="longdouble", dense=False, _depth=3) for m in BASES[:4]]
     if not ctx.only or "bfs" in ctx.only:
